@@ -111,9 +111,9 @@ func runC14N1(st *c14state) {
 	for _, s := range st.sinks {
 		emit := []ssa.Instruction{s.store}
 		f := s.fn
-		for d := 0; d < 2 && f != nil; d++ {
-			sites := gSites[f]
-			if !onlyStaticallyCalled(f) || len(sites) == 0 || len(sites) > maxHelperSites {
+		for d := 0; d < 3 && f != nil; d++ {
+			sites := c14sitesOf(f)
+			if len(sites) == 0 || len(sites) > maxHelperSites {
 				break
 			}
 			var next *ssa.Function
@@ -207,19 +207,67 @@ func runC14N1(st *c14state) {
 	for init := range inits {
 		scan = append(scan, init)
 	}
-	eachInstrOf(scan, func(f *ssa.Function, i ssa.Instruction) {
-		if inits[f] {
-			if _, isMU := i.(*ssa.MapUpdate); !isMU {
-				return
+	// what a table entry stands for: a scheme constant, or a builder function that uses exactly one scheme
+	schemesIn := func(fn *ssa.Function) map[string]bool {
+		out := map[string]bool{}
+		for _, g := range withAnon(fn) {
+			eachInstr(g, func(i ssa.Instruction) {
+				for _, op := range i.Operands(nil) {
+					if op != nil && *op != nil {
+						if p := schemeOf(*op); p != "" {
+							out[p] = true
+						}
+					}
+				}
+			})
+		}
+		return out
+	}
+	entryScheme := func(v ssa.Value) string {
+		if p := schemeOf(v); p != "" {
+			return p
+		}
+		var fn *ssa.Function
+		switch x := v.(type) {
+		case *ssa.Function:
+			fn = unwrap(x)
+		case *ssa.MakeClosure:
+			if g, ok := x.Fn.(*ssa.Function); ok {
+				fn = unwrap(g)
 			}
 		}
+		if fn == nil || !isRepoFn(fn) || len(fn.Blocks) == 0 {
+			return ""
+		}
+		set := schemesIn(fn)
+		if len(set) != 1 {
+			return ""
+		}
+		for p := range set {
+			return p
+		}
+		return ""
+	}
+	isKeyFor := func(v ssa.Value, p string) bool {
+		k, isK := constString(v)
+		return isK && (k == "proto="+p || k == p)
+	}
+	// rows of a literal table of structs: the stores into the fields of one element
+	rows := map[ssa.Value][]*ssa.Store{}
+	eachInstrOf(scan, func(f *ssa.Function, i ssa.Instruction) {
 		if mu, ok := i.(*ssa.MapUpdate); ok {
-			if p := schemeOf(mu.Value); p != "" {
-				if k, isK := constString(mu.Key); isK && (k == "proto="+p || k == p) {
-					seen[p] = true
-				}
+			if p := entryScheme(mu.Value); p != "" && isKeyFor(mu.Key, p) {
+				seen[p] = true
 			}
 			return
+		}
+		if st, ok := i.(*ssa.Store); ok {
+			if fa, isFA := st.Addr.(*ssa.FieldAddr); isFA {
+				rows[fa.X] = append(rows[fa.X], st)
+			}
+		}
+		if inits[f] {
+			return // of a package initialiser only the tables count
 		}
 		if phi, ok := i.(*ssa.Phi); ok {
 			for k, e := range phi.Edges {
@@ -246,6 +294,19 @@ func runC14N1(st *c14state) {
 			}
 		}
 	})
+	for _, sts := range rows {
+		for _, a := range sts {
+			p := entryScheme(a.Val)
+			if p == "" {
+				continue
+			}
+			for _, b := range sts {
+				if b != a && isKeyFor(b.Val, p) {
+					seen[p] = true
+				}
+			}
+		}
+	}
 	// generic spelling: the scheme IS the option's value — `v + "://" + addr` with v cut from the word after "proto="
 	// (strings.CutPrefix / TrimPrefix / o[len("proto="):]) — chosen under a membership test of v against the schemes
 	eachInstrOf(scan, func(f *ssa.Function, i ssa.Instruction) {
